@@ -583,7 +583,7 @@ class ManifestContext:
                 drops.append(f'{drop_seg}')
             else:
                 drops.append(f'{code}={drop_seg}')
-        return urllib.parse.quote_plus(','.join(drops))
+        return ','.join(drops)
 
     def update_timing(self, timing: DashTiming) -> None:
         tc = timing.generate_manifest_context()
